@@ -1111,7 +1111,7 @@ func (e *env) burst(rt *rapid.T) {
 				// with several value logs TruncateUptoTx keeps the ones it already fetched while it waits for the next one and
 				// releaseVLog wakes a single waiter whatever it waits for: next to concurrent readers/committers the wake-up can be
 				// lost for good (hang). That is a liveness matter of C14; here truncation runs concurrently only with one value log.
-				if e.lastN == 0 || (e.cfg.IOConc > 1 && !e.cfg.Embedded) {
+				if e.lastN == 0 || (e.cfg.IOConc > 1 && !e.cfg.Embedded && !truncMulti) {
 					continue
 				}
 				if e.st.LastPrecommittedTxID() > e.st.LastCommittedTxID() && vk.Excluded("K02c-truncation-ignores-uncommitted-txs") {
@@ -1546,6 +1546,10 @@ func (e *env) replicate() {
 }
 
 var timing = os.Getenv("VERIF_C02_TIMING") != ""
+
+// VERIF_C02_TRUNC_MULTI=1 lets TruncateUptoTx run inside the bursts also with several value logs (used to try fixes of the
+// lost wake-up in releaseVLog; off by default, see Assumptions)
+var truncMulti = os.Getenv("VERIF_C02_TRUNC_MULTI") != ""
 
 func txLogChunks(dir string) int {
 	m, _ := filepath.Glob(filepath.Join(dir, "tx", "*.tx"))
